@@ -197,6 +197,44 @@ def run_benign(verbose=True):
     return out
 
 
+def _benign_one(args):
+    prop, name, files, allowed = args
+    import main as M
+    M.load_rules()
+    FX = facts.load([os.environ['VERIF_FIXTURE_FACTS']])
+    P = facts.load(files)
+    c = core.Ctx(prop, P, 'quick', 'default', FX)
+    c.run()
+    keys = [o.key for o in c.failed()]
+    extra = [k for k in keys if not any(k.startswith(a) for a in allowed)]
+    return {'variant': name, 'status': 'silent-ok' if not keys else ('accepted-alarm' if not extra else 'FALSE-ALARM'), 'fired': keys[:6]}
+
+
+def run_benign_for(prop, jobs=12):
+    """the benign battery against one property's rules (thorough tier), evaluated in parallel"""
+    import multiprocessing
+    acc = {}
+    af = os.path.join(BENIGN, 'ACCEPTED.json')
+    if os.path.exists(af):
+        acc = json.load(open(af))
+    vs = []
+    for d in sorted(glob.glob(os.path.join(BENIGN, '*'))):
+        if os.path.exists(os.path.join(d, 'patch.diff')):
+            vs.append({'name': 'benign/' + os.path.basename(d), 'kind': 'diff', 'patch': os.path.join(d, 'patch.diff'), 'benign': True})
+    miss = uncached(vs)
+    if miss:
+        run_variants(prop, miss, verbose=False)
+    os.environ['VERIF_FIXTURE_FACTS'] = extract.extract_fixture()
+    state = _repo_state()
+    tasks = []
+    for v in vs:
+        files = sorted(glob.glob(os.path.join(VCACHE, _variant_key(v, state), '*.jsonl')))
+        if files:
+            tasks.append((prop, v['name'], files, acc.get(os.path.basename(v['name']), {}).get('keys', [])))
+    with multiprocessing.Pool(jobs) as pool:
+        return pool.map(_benign_one, tasks)
+
+
 def main_parallel(props, save, jobs):
     """all variants of all properties: facts of variants not yet cached are produced one after the other (one shared
     scratch build directory), the evaluation of the rules then runs in `jobs` processes"""
